@@ -59,7 +59,7 @@ var c11Locals = []struct{ raw, unq string }{
 	// whatever their length, handed over as sent or refused - never cut
 	{strings.Repeat("l", 64), ""}, {strings.Repeat("m", 65), ""}, {"bounce-list-" + strings.Repeat("0123456789", 6) + "=user=x.test", ""}, {strings.Repeat("long.", 39) + "local", ""},
 }
-var c11Domains = []string{"example.org", "a.b-c.d", "[127.0.0.1]", "[IPv6:::1]", "x", "EXAMPLE.Com", "xn--bcher-kva.example",
+var c11Domains = []string{"example.org", "a.b-c.d", "[127.0.0.1]", "[IPv6:::1]", "x", "EXAMPLE.Com", "xn--bcher-kva.example", "example.net.", "a.b.",
 	strings.Repeat(strings.Repeat("d", 60)+".", 4) + "example.org", strings.Repeat(strings.Repeat("e", 63)+".", 4) + "test"}
 
 func mixCase(r *core.Rand, s string) string {
@@ -194,12 +194,19 @@ func c11GenRcpt(r *core.Rand, conf ref.ExtConf) c11Line {
 		} else {
 			l.ORcptType, l.ORcpt = "UTF-8", "bob@example.com"
 			enc := "bob@example.com"
-			switch r.Intn(3) {
+			switch r.Intn(5) {
 			case 0:
 				l.ORcpt = "a+b@c.test"
 				enc = `a\x{2B}b@c.test`
 			case 1:
 				l.ORcpt, enc = "semi;colon@c.test", "semi;colon@c.test"
+			case 2, 3:
+				// embedded-unicode-char forms at the edges of the RFC 6533 hexpoint ranges
+				// (2-, 3-, 4-, 5- and 6-digit forms, both sides of the surrogate gap)
+				pts := []rune{0x80, 0xFF, 0x100, 0x416, 0xFFF, 0x1000, 0xCFFF, 0xD000, 0xD7FF, 0xE000, 0xE001, 0xFFFD, 0x10000, 0x1F600, 0xFFFFF, 0x100000, 0x10FFFF}
+				pt := pts[r.Intn(len(pts))]
+				l.ORcpt = "u" + string(pt) + "v@c.test"
+				enc = fmt.Sprintf(`u\x{%X}v@c.test`, pt)
 			}
 			params = append(params, mixCase(r, "ORCPT")+"="+mixCase(r, "utf-8")+";"+enc)
 		}
